@@ -34,7 +34,8 @@ def gen_call(rng, tok, cid='a', kinds=None, invalid_p=0.1, version=None):
                 'then': rng.sample(['er7', 'er7_trailing', 'validate', 'names', 'mllp'], rng.choice([1, 2, 3]))}
     if kind == 'parse_segment':
         name = gen.pick_segment(rng, version)
-        text = gen.segment_text(rng, version, name, ec, tok, invalid_p=inv, fill=rng.choice([0.2, 0.5]))
+        text = gen.segment_text(rng, version, name, ec, tok, invalid_p=inv, fill=rng.choice([0.2, 0.5]),
+                                overflow_p=rng.choice([0, 0, 0.15]))
         return {'kind': kind, 'text': text, 'version': version, 'ec': eci, 'level': level,
                 'then': rng.sample(['er7', 'er7_trailing', 'validate', 'names'], rng.choice([1, 2]))}
     if kind == 'parse_field':
@@ -43,7 +44,7 @@ def gen_call(rng, tok, cid='a', kinds=None, invalid_p=0.1, version=None):
         if not flds:
             return gen_call(rng, tok, cid, ['parse_segment'], invalid_p)
         f = rng.choice(flds)
-        text = gen.field_text(rng, version, f[1], ec, tok, 0.5, inv)
+        text = gen.field_text(rng, version, f[1], ec, tok, 0.5, inv, overflow_p=rng.choice([0, 0, 0.3]))
         return {'kind': kind, 'text': text, 'name': f[0], 'version': version, 'ec': eci, 'level': level,
                 'then': ['er7', 'validate'][:rng.choice([1, 2])]}
     if kind == 'parse_component':
@@ -89,6 +90,18 @@ def gen_call(rng, tok, cid='a', kinds=None, invalid_p=0.1, version=None):
         seg = rng.choice(segs)
         r = rng.random()
         flds = [c for c in T.seg_fields(version, seg) if c[1] is not None and c[2][1] != 0 and c[1][2] != 'WD']
+        grps = [c for c in ref[1] if c[3] == 'GRP']
+        if grps and r < 0.12:
+            g = rng.choice(grps)
+            gsegs = [c[0] for c in g[1][1] if c[3] == 'SEG' and T.seg_fields(version, c[0])] if g[1] and g[1][1] else []
+            if gsegs:
+                steps.append(['grp_text', g[0], gen.segment_text(rng, version, gsegs[0], ec, tok, fill=0.2)])
+                continue
+        if flds and r > 0.85:
+            f = rng.choice(flds)
+            # the source is a parent-less segment parsed with the standard delimiters
+            steps.append(['copy_field', seg, f[0], gen.segment_text(rng, version, seg, ECS[0], tok, fill=0.6)])
+            continue
         if r < 0.25 or not flds:
             steps.append(['add_segment', seg])
         elif r < 0.5:
@@ -216,6 +229,12 @@ def run_call(c, hook=None):
                     elif st[0] == 'field':
                         seg = getattr(m, st[1])
                         setattr(seg, st[2], st[3])
+                    elif st[0] == 'grp_text':
+                        setattr(m, st[1], st[2])
+                    elif st[0] == 'copy_field':
+                        src = P.parse_segment(st[3], version=c['version'], encoding_chars=_ec(0), validation_level=c['level'])
+                        seg = getattr(m, st[1])
+                        setattr(seg, st[2], getattr(src, st[2]))
                     log.append('ok')
                 except Exception as ex:       # noqa
                     log.append('EXC ' + canon_exc(ex))
